@@ -82,6 +82,8 @@ def jobs(tier, seed):
     progs = list(range(len(USER_PROGRAMS)))
     for p in progs:
         for i, sf in enumerate('fgh'):
+            if p == 2 and sf == 'g':
+                continue    # 1/g**2 in seven scales: feasibility queries take minutes; g stays concrete here
             out.append({'fn': 'conv_user', 'cfg': {'prog': p, 'flav': flavs[(p + i) % 2], 'symfac': sf}})
     # canaries: same harness, one obligation negated
     out.append({'fn': 'conv_pair', 'cfg': {'flav': 'dec', 'pairs': [['mi', 'in']], 'canary': True},
@@ -223,8 +225,12 @@ def _prog_term_mixed(E, f, g, h):
     w1 = W.derive_unit_from(v1, y1)
     w2 = W.new_unit('w2', None, Term(((h, 1), (v1, 1), (y0, -1))))
     w3 = W.new_unit('w3', None, Term(((x1, 1), (y1, -2))))
-    S = {w0: 1, w1: f / g / g, w2: h * f / g, w3: f / g / g}
-    return W, [w0, w1, w2, w3], S
+    # three and more items with mutually convertible units and exponents != 1
+    w4 = W.new_unit('w4', None, Term(((x1, 1), (y1, -1), (y0, -1))))
+    w5 = W.new_unit('w5', None, Term(((x0, -1), (y0, -2), (x1, 2))))
+    w6 = W.new_unit('w6', None, Term(((y1, 1), (x0, 1), (y0, -3))))
+    S = {w0: 1, w1: f / g / g, w2: h * f / g, w3: f / g / g, w4: f / g, w5: f * f, w6: g}
+    return W, [w0, w1, w2, w3, w4, w5, w6], S
 
 
 USER_PROGRAMS = [_prog_chain, _prog_derived, _prog_term_mixed]
@@ -263,7 +269,7 @@ def conv_user(E, cfg):
     E.check(r == q, 'user-converted-equals-original')
     back = r.convert(u)
     E.check(back.amount == a, 'user-round-trip')
-    k = E.choice('third', idx)
+    k = E.choice('third', idx[:3] + idx[-1:])
     w = units[k]
     via = q.convert(w).convert(v)
     E.check(via.amount == r.amount, 'user-via-equals-direct')
